@@ -1,6 +1,6 @@
 """C03 — awaiting an event from ordinary code returns iff its whole handler/descendant tree is done."""
 from .. import scenlib as S
-from ._common import flat, mk, t_tree
+from ._common import flat, matrix_jobs, mk, t_tree
 
 META = dict(
     explanation='Event trees (depth <= 3, awaited / fire-and-forget / yield-then-await children, children on another bus, raising '
@@ -36,4 +36,6 @@ def jobs(tier):
             mk('C03', 'x2/other_running/BA', S.two_bus_await('other_running', ('B', 'A')), witnesses=W, max_paths=6000),
             mk('C03', 'x2/depth3', S.two_bus_await('other_fresh', ('A', 'B'), depth=3), witnesses=W, max_paths=6000),
         ]
+    out += matrix_jobs('C03', 'm1', tier)
+    out += matrix_jobs('C03', 'm2', tier)
     return flat(out)
